@@ -1,0 +1,25 @@
+//go:build verif
+
+package vm
+
+import (
+	"git.defalsify.org/vise.git/cache"
+	"git.defalsify.org/vise.git/render"
+	"git.defalsify.org/vise.git/state"
+)
+
+// VerifHook, when set, is called at every instruction boundary of Vm.Run
+// ("top": before an instruction is executed, with the pending code;
+// "exit": when Run returns or panics). Verification builds only.
+var VerifHook func(ev string, vm *Vm, code []byte)
+
+func (vm *Vm) verifStep(ev string, b []byte) {
+	if VerifHook != nil {
+		VerifHook(ev, vm, b)
+	}
+}
+
+// VerifParts exposes the components mutated by the vm. Verification builds only.
+func (vm *Vm) VerifParts() (*state.State, cache.Memory, *render.Page, *render.Menu) {
+	return vm.st, vm.ca, vm.pg, vm.mn
+}
